@@ -4,7 +4,8 @@ open Pox Pox.Proto Pox.Packet Pox.Parse
 
 /-! Line-protocol driver for C15.
 
-  {"op":"parse","raw":hex,"cfg":"repaired"|"head","d":n (optional nesting budget; default = Parse.budget raw)}
+  {"op":"parse","raw":hex,"cfg":"repaired"|"head","d":n (optional nesting budget; default = Parse.budget raw),
+   "fix":["K5",…] (optional: which repairs fixes/C15-K<n>_*.diff the tree has; cfg "repaired" only)}
      → {"exc":"<Python exception class>"}                                  when ethernet(raw=…) raises in the model
      → {"chain":[layer,…,terminal],"foreign":bool,"pack":hex|{"exc":…}|null,"print":"ok"|{"exc":…}|null}
         ("core":true in the request adds "core": the same answer of the phase-1 model Cfg.core; "known":"K9" … names the finding
@@ -156,7 +157,13 @@ def handle (j : J) : Except String J := do
   if op = "parse" then
     let raw ← j.bytes "raw"
     let cfgName ← j.string "cfg"
-    let cfg ← if cfgName = "repaired" then pure Cfg.repaired else if cfgName = "head" then pure Cfg.head
+    -- "fix": ["K5", …] = the repairs of the registered findings that the tree under test has (harness/c15.py reads them off the source)
+    let fixes : List String := match j.get? "fix" with
+      | some (J.arr xs) => xs.filterMap fun x => match x with | J.str t => some t | _ => none
+      | _ => []
+    let has (t : String) : Bool := fixes.contains t
+    let fx : Fix := ⟨has "K5", has "K6", has "K7", has "K8", has "K9", has "K10", has "K13", has "K14", has "K16"⟩
+    let cfg ← if cfgName = "repaired" then pure (Cfg.repairedWith fx) else if cfgName = "head" then pure Cfg.head
               else if cfgName = "core" then pure Cfg.core else throw s!"unknown cfg {cfgName}"
     let d := match ← j.optNat "d" with
       | some d => d
